@@ -32,7 +32,8 @@ def make_monitor(ctx):
         for pname, evs in [("parent", parent)] + [("child %r" % (k,), v) for k, v in children.items()]:
             for e in evs:
                 if e[0] in ("tsu", "ttd") and not e[2]:
-                    return ("%s: sys.stdout/sys.stderr are the capture buffers while layer %d's %s runs"
+                    return ("%s: sys.stdout/sys.stderr are the capture buffers (or not the streams that were installed "
+                            "when the layer's tests began) while layer %d's %s runs"
                             % (pname, e[1], "testSetUp" if e[0] == "tsu" else "testTearDown"), "C13:not-restored")
         if not c.opts.get("buffer"):
             return None
@@ -124,10 +125,18 @@ def gen_cases(ctx):
         for l in w["layers"]:
             if l["kind"] != "unit" and rng.random() < 0.6:
                 l["testSetUp"] = l["testTearDown"] = True
+            if l["kind"] != "unit" and l["setUp"] and l["tearDown"] and rng.random() < 0.3:
+                # a layer that installs its own std streams while it is set up: "the std streams" its hooks must see
+                # are those, whichever layers ran before it
+                l["swapStreams"] = True
         o = worlds.gen_opts(rng, allow=("verbose", "repeat", "j"))
         o["buffer"] = rng.random() < 0.8
         if rng.random() < 0.25:
             o["xml"] = "xmlout"         # the XML wrapper hands the captured output on to the formatter
+        if rng.random() < 0.3:
+            o["color"] = True           # the colourising formatter has its own way of printing the captured output
+            if rng.random() < 0.5:
+                o.setdefault("decor", []).append(["--progress"])
         cases.append(cw.Case(w, o))
     # --buffer together with -D/--post-mortem: as long as nothing fails no debugger is entered, and what passing,
     # skipped and expected-failure tests write stays out of the output
